@@ -109,6 +109,12 @@ func check(sub string) func(t h.TB, c Case) {
 			err := decorator.NewRestorerWithImports("example.com/self", guess.New()).Fprint(&buf, f)
 			return buf.Bytes(), err
 		}
+		if c.Imports && known.DuplicateImport([]byte(c.Src)) {
+			// open finding KF-6 (judged by C08): an import-managed restore drops one of two specs with
+			// the same path, so the printed tree has other nodes than the decorated one
+			h.KnownHit("KF-6")
+			return
+		}
 		if c.Imports {
 			f, err = decorator.NewDecoratorWithImports(token.NewFileSet(), "example.com/self", goast.New()).Parse(c.Src)
 			if err != nil {
